@@ -8,7 +8,8 @@ from vf.treeform import class_names
 ID = "C17"
 BUDGET = {"quick": 2400, "thorough": 40000}
 RULE = ("Domain A: F2003-class programs from G (a share of them with genuine references to ERF/GAMMA/SHIFTL/SHIFTR/SHIFTA "
-        "with an admissible argument count): parse08 succeeds and str(parse08(P)) == str(parse03(P)) exactly, or - when "
+        "with an admissible argument count, a share with F2008 keyword spellings - concurrent, block, critical, error, mold ... - "
+        "used as plain names in assignments, DO/IF/SELECT headers, calls and I/O): parse08 succeeds and str(parse08(P)) == str(parse03(P)) exactly, or - when "
         "one of the five names occurs - equal case-insensitively outside character literals. Domain B: programs from G "
         "with >= 1 F2008-only production (SUBMODULE, CODIMENSION, BLOCK, CRITICAL, DO CONCURRENT, ERROR STOP, CONTIGUOUS, "
         "ALLOCATE(MOLD=), OPEN(NEWUNIT=), unlimited-repeat format item, [MODULE] PROCEDURE :: in an interface block): "
@@ -21,6 +22,17 @@ F08_INTR = {"erf": "erf(x)", "gamma": "gamma(y)", "shiftl": "shiftl(i, 2)", "shi
 OVERRIDDEN = {"Type_Declaration_Stmt", "If_Stmt", "Open_Stmt", "Allocate_Stmt", "Label_Do_Stmt", "Nonlabel_Do_Stmt",
               "Format_Item", "Action_Stmt", "Data_Component_Def_Stmt", "Procedure_Stmt", "Stop_Stmt",
               "Block_Nonlabel_Do_Construct", "Block_Label_Do_Construct"}
+
+# F2008 keywords (and names that merely start with one) used as ordinary names in F2003-class statements
+KW_NAMES = ["concurrent", "concurrent_idx", "block", "critical", "contiguous", "codimension", "submodule", "error",
+            "mold", "newunit", "impure", "errorstop", "endblock", "block_data", "stop_code", "lock", "sync", "image"]
+KW_TEMPLATES = [
+    ["{a} = {b} + 1"], ["{a}(i) = {b}"], ["call {a}({b})"], ["if ({a} > 0) {b} = 1"], ["print *, {a}, {b}"],
+    ["do {a} = 1, {b}", "x = {a}", "end do"], ["do 77 {a} = 1, n", "77 continue"], ["do 78, {a} = 1, {b}, 2", "78 continue"],
+    ["do while ({a} > 0)", "{a} = {a} - 1", "end do"], ["allocate({a}(3), stat = {b})"],
+    ["open(unit = {a}, file = 'f')"], ["read({a}, *) {b}"], ["if ({a} == {b}) then", "stop", "end if"],
+    ["{a} % {b} = 1"], ["select case ({a})", "case (1)", "{b} = 2", "end select"],
+]
 
 CATALOGUE = [
     ("submodule", "submodule (m) sm\nend submodule sm\n"),
@@ -64,6 +76,19 @@ def build(rnd, tier, flags):
                     src_lines.insert(i, "xx = %s" % F08_INTR[nm])
                 meta["f08_intrinsics"] = names
                 break
+    if domain == "A" and r.chance(40):
+        # F2008 keyword spellings as plain names, directly in the execution part of a program unit
+        for i, (st, d) in enumerate(flat):
+            if st.kind in ("assign", "call", "print", "continue") and d == 1 and not st.label:
+                new = []
+                for _ in range(r.n(1, 3)):
+                    a, b = r.pick(KW_NAMES), r.pick(KW_NAMES)
+                    new += [ln.format(a=a, b=b) for ln in r.pick(KW_TEMPLATES)]
+                j = src_lines.index(gen.stmt_text(st)) if src_lines.count(gen.stmt_text(st)) == 1 else None
+                if j is not None:
+                    src_lines[j:j] = new
+                    meta["kw_names"] = True
+                break
     meta["f08_kinds"] = sorted({k for k, _ in f08_stmts})
     meta["f08_depth"] = max([d for _, d in f08_stmts] + [0])
     return {"src": "\n".join(src_lines) + "\n", "domain": domain, "meta": meta}, progs.excluded_counts(g)
@@ -80,6 +105,8 @@ def evaluate(case):
     meta = case.get("meta", {})
     dom = case["domain"]
     labels = ["domain=" + dom] + ["f08:" + k for k in meta.get("f08_kinds", [])]
+    if meta.get("kw_names"):
+        labels.append("keyword-spelled-names")
     o8 = guarded_parse(case["src"], std="f2008", want_str=True)
     o3 = guarded_parse(case["src"], std="f2003", want_str=True)
     if dom == "A":
